@@ -73,6 +73,11 @@ chk('C05', 'exploration',
     'Product A: 15 assignment operators x 10 target kinds x 27 operands and 8 comparison operators x 27 x 27 operands (9 types x literal/local/predefined). Product B: every entry of predefined.yml x {get, set, set-of-read-only, unset}, every entry of builtin.yml x every signature, and the scope-restricted statements (restart, error, esi, synthetic, synthetic.base64, 9 return actions) x the 9 scopes and all 36 two-scope annotations (about 81000 cells). Oracle 1: the linter reports no ERROR on the use line iff the YAML tables (read from /repo at run time) allow the cell - for a multi-scope subroutine iff every scope allows it; for product A iff the committed matrix allows it. Oracle 2: every accepted cell executes in each of its scopes on the real interpreter without a crash and without an error of the contract classes.',
     'Trusts: YAML loader; mc/ref/data/assigntable.tsv is a reviewed snapshot of the pinned linter matrix because the Fastly assignment type table (external spreadsheet) is unavailable offline - for product A the check decides drift from that snapshot plus accepted=>executes. 70 known-finding classes (variables the simulator does not implement, literal on the left of ==) are listed in known_findings.json.')
 
+chk('C07', 'exploration',
+    'bounded-exhaustive enumeration of core-language programs compared with an independent reference evaluator; duality laws as a differential oracle on the implementation',
+    'Every assignment operator x operand pair over boundary INTEGER/FLOAT/RTIME/BOOL values x {literal, variable} where the reference defines the result; declaration defaults and STRING renderings; every comparison of 21 typed atoms (set / not-set / empty strings, headers, literals) where defined, regex matches in the RE2/PCRE common subset, truthiness, prefix !, &&/||/! combinations; each comparison also in its dual form; every truth assignment of if / else-if / else chains up to 3 conditions; every switch arrangement of up to 3 (quick) / 4 (thorough) cases x fallthrough flags x default position over 5 controls; every ACL of up to 3 (quick) / 4 (thorough) entries from 62 plain/negated prefixes of a 4-bit IPv4 sub-space x 18 addresses (and a 3-bit IPv6 sub-space) against a longest-prefix reference. All run through the real interpreter; observables are log lines.',
+    'Trusts: the reference evaluator in mc/checks/c07 (written from the Fastly documentation; refuses what the documentation does not define - see DESIGN appendix A).')
+
 NOT_YET = {i: 'check not built yet in this session (design in DESIGN.md §4); will be claimed once its command exists' for i in ids if i not in CHECKS}
 
 m = {
